@@ -14,6 +14,9 @@
 -- expect: false	attempt to index a number value
 -- expect: Rex makes a sound
 -- expect: true	nil
+-- expect: false	cannot change a protected metatable
+-- expect: false	bad argument #1 to 'setmetatable' (table expected, got number)
+-- expect: false	bad argument #2 to 'setmetatable' (nil or table expected)
 local base = {x = 1, y = 2}
 local t = setmetatable({y = 20}, {__index = base})
 print(t.x, t.y, t.z)
@@ -58,3 +61,6 @@ function Animal.speak(self) return self.name .. " makes a sound" end
 local dog = Animal.new("Rex")
 print(dog.speak(dog))
 print(setmetatable(obj, nil) == obj, getmetatable(obj))
+print(pcall(setmetatable, p, {}))
+print(pcall(setmetatable, 1, {}))
+print(pcall(setmetatable, {}, 1))
